@@ -85,8 +85,12 @@ def table_agreement(p, item, tier, seed):
         return z3.If(pb, z3.If(qb, e[3], e[2]), z3.If(qb, e[1], e[0]))
 
     def real_op_term(t):
-        r = lift(t.operator(SymState(pb, False), SymState(qb, False)))
-        return zb(r.t), zb(r.u)
+        # an operator that branches on its operands' values is followed along every branch
+        paths, _st = forkexec.explore(lambda: lift(t.operator(SymState(pb, False), SymState(qb, False))), catch=(), max_paths=64, max_seconds=10)
+        if len(paths) == 1:
+            r = paths[0].result
+            return zb(r.t), zb(r.u)
+        return (z3.Or(*[z3.And(pp.cond(), zb(pp.result.t)) for pp in paths]), z3.Or(*[z3.And(pp.cond(), zb(pp.result.u)) for pp in paths]))
 
     if what == "circuit_search.Operation":
         from cirbo.synthesis import circuit_search as cs
@@ -316,7 +320,12 @@ def _check_concrete_circuit(p, name, c, with_tt=True, build_src=None):
     nl = circ.netlist_of(c)
     ER = refsem.denote(nl, zs)
     symeval.clear_oob()
-    paths, stats = forkexec.explore(lambda: _entrypoint_disagreements(c, zs, ER), catch=(), max_paths=512)
+    try:
+        paths, stats = forkexec.explore(lambda: _entrypoint_disagreements(c, zs, ER), catch=(), max_paths=512, max_seconds=20)
+    except forkexec.PathLimit:
+        p.queries["unknown"] += 1
+        p.inconclusive.append(f"{name}: the evaluator branches on gate values too many ways to decide {circ.describe(c)[:120]} by forking")
+        return
     if len(paths) > 1:
         p.count("circuits_evaluated_on_several_paths")
         dis = [("forked", None, z3.Or(*[z3.And(pp.cond(), z3.Or(*[d[2] for d in pp.result])) for pp in paths]))]
@@ -486,11 +495,11 @@ def compose_symbolic_types(p, item, tier, seed):
 
             # code that branches on a gate value forks the run instead of stopping it
             try:
-                paths, _st = forkexec.explore(observe, base=list(constraints), catch=(), max_paths=48, max_seconds=10)
+                paths, _st = forkexec.explore(observe, base=list(constraints), catch=(), max_paths=48, max_seconds=5)
             except forkexec.PathLimit:
                 p.queries["unknown"] += 1
                 limit_hits += 1
-                if limit_hits == 3:
+                if limit_hits == 1:
                     p.inconclusive.append(f"symbolic gate types, {n_in} inputs: the code under test branches on gate values more than 48 ways per topology; "
                                           f"{len(topo_list)} topologies left undecided")
                     return
